@@ -85,6 +85,11 @@ func mkTextConf(r *Rand, infix bool) textConf {
 			vars = append(vars, fmt.Sprintf("(%s, %d)", coqStr(n), k))
 		}
 	}
+	// a name that is BOTH a constant of the configuration and a registered variable: the constant wins, in both notations
+	if r.Intn(3) != 0 {
+		k := eval.GetOrRegisterKey(conf, "K1")
+		vars = append(vars, fmt.Sprintf("(%s, %d)", coqStr("K1"), k))
+	}
 	var cs []string
 	ck := make([]string, 0)
 	for k := range textConsts {
@@ -198,7 +203,8 @@ func relayout(r *Rand, toks []eval.VerifToken, infix bool) string {
 			}
 			if r.Intn(10) == 0 {
 				// a comment runs to the LINE FEED: a bare carriage return, a form feed, a quote, parentheses are all text
-				sb.WriteString([]string{"; a comment (with ; and \" inside\n", "; previous value:\r 2 (+ 1\n", ";x\ry\n", "; tab\tand\fform feed ) (\n", ";\n", "; crlf\r\n"}[r.Intn(6)])
+				sb.WriteString([]string{"; a comment (with ; and \" inside\n", "; previous value:\r 2 (+ 1\n", ";x\ry\n", "; tab\tand\fform feed ) (\n", ";\n", "; crlf\r\n",
+					"; café λ 中 Ж ß\n", ";; 中中中中 ééé (\n", "; ²½Ⅳ٣ end\n"}[r.Intn(9)])
 			}
 		}
 		sb.WriteString(txt(t))
@@ -250,6 +256,10 @@ func genText(c *RunCtx, prop string) []*Batch {
 			// an `if` at the root (and else-if chains) over integer variables: the branches are two-leaf operators
 			// (fast operators when that optimisation is on), literals, or further ifs
 			t = ifChain(r, 1+r.Intn(3))
+		}
+		if prop == "C13" && k%30 == 3 {
+			// nested same-kind groups that flatten past the operand limit: rejected, or a Dump that compiles again
+			t = wideNested(r)
 		}
 		if prop == "C13" && k%6 == 2 {
 			// calls without operands as operands of two-operand operators (an operand-less call is NOT a leaf: with fast
@@ -522,6 +532,8 @@ func infixTree(r *Rand, d int) *GT {
 			return gconst(l)
 		case 3:
 			return gconst(r.Bool())
+		case 4:
+			return &GT{Kind: "const", Val: textConsts["K1"], Name: "K1"}
 		default:
 			return gvar(append(append([]string{}, boolVars...), "i0", "i1", "é1", "x.y")[r.Intn(8)])
 		}
@@ -556,6 +568,9 @@ func infixRender(r *Rand, t *GT, ctx int) string {
 	}
 	switch t.Kind {
 	case "const":
+		if t.Name != "" { // a constant of the configuration, written by its name
+			return wrap(t.Name, false)
+		}
 		switch x := t.Val.(type) {
 		case []int64:
 			p := make([]string, len(x))
